@@ -1,5 +1,6 @@
 import Basyx.Driver.Codec
 import Basyx.Model.Compliance
+import Basyx.Model.Keyed
 import Basyx.Gen.Compliance
 open Lean
 namespace Basyx.Driver.Compliance
@@ -17,7 +18,7 @@ def outcomeOf (j : Json) : Outcome := match jarr j with
 def statusName : Status → String
   | .success => "success" | .warnings => "warnings" | .failed => "failed" | .notExecuted => "notExecuted"
 
-/-- ["script", phases, outcomes] ; ["checkeq", val, val] ; ["overall", [status…]] -/
+/-- ["script", phases, outcomes] ; ["checkeq", val, val] ; ["keyed", lenCheck, [[key, val]…], [[key, val]…]] ; ["overall", [status…]] -/
 def handle (u : Unit) (op : String) (args : List Json) : Unit × Json :=
   match op, args with
   | "script", [ps, os] =>
@@ -28,6 +29,11 @@ def handle (u : Unit) (op : String) (args : List Json) : Unit × Json :=
     (u, Json.str (statusName (overall ((jarr sts).filterMap (fun j => match jstr j with
       | "success" => some Status.success | "warnings" => some .warnings | "failed" => some .failed
       | "notExecuted" => some .notExecuted | _ => none)))))
+  | "keyed", [lc, a, b] =>
+    let pairs := fun (j : Json) => (jarr j).map (fun p => match jarr p with
+      | [k, v] => (jstr k, valOfJson v)
+      | _ => ("", Basyx.Codec.Val.none))
+    (u, Json.bool (Basyx.Keyed.checkKeyed (jbool lc) (checkEq Gen.Compliance.cover) (pairs a) (pairs b)))
   | "checkeq", [a, b] => (u, Json.bool (checkEq Gen.Compliance.cover (valOfJson a) (valOfJson b)))
   | _, _ => (u, Json.arr #["bad-op"])
 
